@@ -126,7 +126,7 @@ def validate(run, ob, wdir, cfile):
                                  '-o', rt_o], timeout=120)
     if rc != 0:
         return None, 0, 'native_rt build failed: ' + (e or o)[-300:]
-    rc, o, e, w, rss, to = R.sh(['gcc', '-O1', '-w', '-std=gnu11', cfile, rt_o, '-o', gen, '-lm'], timeout=600)
+    rc, o, e, w, rss, to = R.sh(['gcc', '-O1', '-w', '-std=gnu11', '-no-pie', cfile, rt_o, '-o', gen, '-lm', '-lstdc++'], timeout=600)
     if rc != 0:
         return None, 0, 'gcc failed on generated C: ' + (e or o)[-600:]
     orig = os.path.join(wdir, 'tv_orig')
